@@ -34,6 +34,10 @@ def run(chk):
         sw = SWITCHES[i % 8]
         w, mu, var, s, X = gt.gen_training(r)
         C, D = mu.shape
+        if i % 5 == 4:
+            # tightly clustered / small-scale features: densities above 1, positive average log-likelihood
+            k = r.choice([1e-2, 1e-3])
+            X, mu, var, s = X * k, mu * k, var * k * k, s * k
         thr = r.choice([None, None, 1e-4 * float(s.min()) ** 2, list(0.05 * s ** 2)])
         K = r.choice([1, 2, 3, 5])
         chunks = None if i % 3 else gen.random_composition(r, len(X), 4)
@@ -66,7 +70,10 @@ def run(chk):
                 break
         # ---- correspondence case 1: cap K, no threshold (NumPy or Dask chunks)
         c1 = gt.make_case(cfg, X, chunks)
-        terms.append(c1["term"])
+        if c1["well_conditioned"]:
+            terms.append(c1["term"])
+        else:
+            chk.count(1, key=("collapsed-variance case excluded from correspondence",))
         if i < 2:
             chk.sample({"entry": "fit", "switches": list(sw), "cap": K, "chunks": chunks, "steps": c1["steps"],
                         "avg_ll_reported": c1["lls"], "N": len(X), "C": C, "D": D})
@@ -87,11 +94,14 @@ def run(chk):
         if K >= 3:
             Kbig = 8
             ctraj = gt.make_case(dict(cfg, cap=Kbig), X, chunks)
+            L = ctraj["lls"]
+            ctraj["cvs"] = [abs((L[k - 1] - L[k]) / L[k - 1]) for k in range(1, len(L)) if L[k - 1] != 0]   # independent of the logged value
             pt = placed_threshold(ctraj["cvs"])
             if pt:
                 kstar, th = pt
                 cthr = gt.make_case(dict(cfg, cap=Kbig, cthr=th), X, chunks)
-                terms.append(cthr["term"])
+                if cthr["well_conditioned"]:
+                    terms.append(cthr["term"])
                 chk.count(1, key=("stop", kstar, bool(chunks)))
                 ref = gt.make_case(dict(cfg, cap=kstar), X, chunks)
                 if cthr["steps"] != kstar:
@@ -105,7 +115,8 @@ def run(chk):
             if i % 4 == 0 and ctraj["cvs"]:
                 th = max(ctraj["cvs"]) * 2.0
                 cnl = gt.make_case(dict(cfg, cap=None, cthr=th), X, chunks)   # model fuel 60
-                terms.append(cnl["term"])
+                if cnl["well_conditioned"]:
+                    terms.append(cnl["term"])
                 chk.count(1, key=("nolimit", bool(chunks)))
                 if cnl["steps"] != 2:
                     chk.fail("no iteration limit, threshold above every relative change: expected to stop at iteration 2, stopped at %d" % cnl["steps"],
